@@ -622,6 +622,14 @@ class Models:
         c = self.registry.get(fr.qualname)
         if c is not None and c.callee_hook is not None and fr.qualname != ex.top:
             return c.callee_hook(ex, gen, st, s, consume)
+        if c is not None and getattr(c, "as_list", None) is not None and getattr(c, "as_list_in_for", False) and fr.qualname != ex.top:
+            outs = []
+            for r in c.as_list(ex, gen, st, s):
+                if isinstance(r, Exc):
+                    outs.append(Outcome("raise", r.exc, r.st))
+                else:
+                    outs.extend(self.for_symbolic(ex, s, r.v, r.st))
+            return outs
         outs = ex.run_generator(fr, gen.args, gen.kwargs, st, consume, gen.bound_self)
         final = []
         for o in outs:
@@ -679,7 +687,11 @@ class Models:
         assumptions = []
         k = z3.Int(fresh_name("k"))
         for var, kind in spec.carried.items():
-            set_carried(body_st, var, kind.fresh(fresh_name(var), assumptions))
+            cur = carried_of(body_st).get(var)
+            if hasattr(cur, "__pyvc_havoc__"):
+                cur.__pyvc_havoc__(fresh_name(var))  # in place: aliases of the object see the havoc too
+            else:
+                set_carried(body_st, var, kind.fresh(fresh_name(var), assumptions))
         for x in assumptions:
             body_st.assume(x)
         body_st.assume(z3.And(k >= 0, k < nt))
@@ -709,7 +721,11 @@ class Models:
         exit_st = st
         assumptions = []
         for var, kind in spec.carried.items():
-            set_carried(exit_st, var, kind.fresh(fresh_name(var + "_exit"), assumptions))
+            cur = carried_of(exit_st).get(var)
+            if hasattr(cur, "__pyvc_havoc__"):
+                cur.__pyvc_havoc__(fresh_name(var + "_exit"))
+            else:
+                set_carried(exit_st, var, kind.fresh(fresh_name(var + "_exit"), assumptions))
         for x in assumptions:
             exit_st.assume(x)
         exit_st.log = list(st.log) + [("LoopHavoc", ordinal)]
@@ -1354,6 +1370,16 @@ class Models:
 
     def set_method(self, ex, obj, name, args, kwargs, st, node):
         if name == "add":
+            if isinstance(args[0], SOpaque) and args[0].sort == "Pattern" and len(obj) == 0:
+                # the (so far empty) Python set becomes a symbolic set of patterns
+                from contracts.rewrite_lines import PatSet, PSET, PATS
+
+                ps = PatSet(z3.K(PATS, z3.BoolVal(False)))
+                for frame in st.frames:
+                    for k, v in list(frame.items()):
+                        if v is obj:
+                            frame[k] = ps
+                return ps.__pyvc_method__(ex, "add", args, kwargs, st, node)
             if V.contains_sym(args[0]):
                 ex.unsupported(node, "set.add symbolic")
             obj.add(args[0])
@@ -1515,11 +1541,15 @@ class Models:
             x = args[0]
             if isinstance(x, GenCall):
                 gc = self.registry.get(x.fr.qualname)
-                if gc is not None and getattr(gc, "as_list", None) is not None and x.fr.qualname != ex.top and not kwargs:
+                if gc is not None and getattr(gc, "as_list", None) is not None and x.fr.qualname != ex.top:
                     out = []
                     for r in gc.as_list(ex, x, st, node):
                         if isinstance(r, Exc):
                             out.append(r)
+                        elif hasattr(r.v, "__pyvc_sorted__"):
+                            lst = r.v.__pyvc_sorted__(ex, kwargs, r.st)
+                            r.st.ghost["sorted_matches"] = lst
+                            out.append(Val(lst, r.st))
                         else:
                             from contracts.diff import sorted_path_items
 
